@@ -71,7 +71,7 @@ def main():
         chk.sample({'scn': scn, 'vals': case['vals'], 'issue': case['issue'],
                     'expected': 'accept' if case['mustAccept'] else ('reject' if case['mustReject'] else 'open'),
                     'observed': obs['verdict'], 'exc': obs.get('exc')}, limit=5)
-    if nacc == 0:
+    if nacc == 0 and not chk.violations:
         raise fw.Machinery('no scenario was accepted: templates broken')
     chk.cov['exhaustive'] = thorough
     chk.cov['rule'] = ('scenarios of SPTime.tla: subset of optional bounds present x focused bound x distance from its edge '
